@@ -21,10 +21,16 @@ MAX_DEPTH = 3
 _ANCHOR_WORDS = None
 
 
-def anchor_words():
-    """identifiers that occur inside string literals of the rule modules: functions named like one of them are anchors"""
-    global _ANCHOR_WORDS
-    if _ANCHOR_WORDS is None:
+LOOKUP_CTX = re.compile(r"(?:\.one|\.is_|\.matches|\.fn|\.all|\.some|\.need|\.search|\.match|\.compile|\.endswith|\.startswith|\.fullmatch|\.findall)\(\s*$")
+
+
+_BROAD_WORDS = None
+
+
+def broad_words():
+    """every identifier-like word of every string literal of the rule modules (prose included)"""
+    global _BROAD_WORDS
+    if _BROAD_WORDS is None:
         words = set()
         d = os.path.dirname(os.path.abspath(__file__))
         for fn in os.listdir(d):
@@ -37,6 +43,52 @@ def anchor_words():
             for lit in re.findall(r'"((?:[^"\\]|\\.)*)"|\'((?:[^\'\\]|\\.)*)\'', src):
                 for w in re.findall(r"[A-Za-z_][A-Za-z0-9_]{1,}", lit[0] or lit[1]):
                     words.add(w)
+        _BROAD_WORDS = words
+    return _BROAD_WORDS
+
+
+def anchor_words():
+    """identifiers by which some rule looks a function up: words of string literals that are (a) the first argument of a
+    lookup / regex call, (b) path-like (contain `::`, `$`, `\\`), (c) a bare snake_case identifier, or (d) on the right-hand
+    side of an ALL_CAPS module constant.  Prose (messages, keys with spaces) does not count."""
+    global _ANCHOR_WORDS
+    if _ANCHOR_WORDS is None:
+        words = set()
+        d = os.path.dirname(os.path.abspath(__file__))
+        for fn in os.listdir(d):
+            if not fn.endswith(".py") or fn in ("inline.py",):
+                continue
+            try:
+                src = open(os.path.join(d, fn)).read()
+            except OSError:
+                continue
+            caps_lines = set()
+            depth_open = False
+            for ln, line in enumerate(src.split("\n")):
+                if re.match(r"^[A-Z][A-Z0-9_]*\s*=", line):
+                    depth_open = True
+                if depth_open:
+                    caps_lines.add(ln)
+                    if line.count("(") + line.count("[") + line.count("{") <= line.count(")") + line.count("]") + line.count("}") and not line.rstrip().endswith(("\\", ",", "|", "+")):
+                        depth_open = False
+            for m in re.finditer(r'r?"((?:[^"\\\n]|\\.)*)"|r?\'((?:[^\'\\\n]|\\.)*)\'', src):
+                lit = m.group(1) if m.group(1) is not None else m.group(2)
+                if not lit:
+                    continue
+                before = src[max(0, m.start() - 40):m.start()]
+                ln = src.count("\n", 0, m.start())
+                take = False
+                if LOOKUP_CTX.search(before) or re.search(r"(?:\.one|\.is_|\.matches|\.fn|\.need)\([^()]*$", before):
+                    take = True
+                elif ("::" in lit or "$" in lit or "\\" in lit) and lit.count(" ") <= 1:
+                    take = True
+                elif re.fullmatch(r"[a-z][a-z0-9]*(_[a-z0-9]+)+", lit):
+                    take = True
+                elif ln in caps_lines and " " not in lit.strip():
+                    take = True
+                if take:
+                    for w in re.findall(r"[A-Za-z_][A-Za-z0-9_]{1,}", lit):
+                        words.add(w)
         _ANCHOR_WORDS = words
     return _ANCHOR_WORDS
 
@@ -64,7 +116,7 @@ def inlinable(db, caller, g, mode="cons"):
         return False
     if g.raw.get("is_async"):
         return False
-    if mode == "cons" and touches_primitives(g):
+    if mode.startswith("cons") and touches_primitives(g):
         return False
     if g.kind not in ("fn", "method"):
         return False
@@ -76,7 +128,7 @@ def inlinable(db, caller, g, mode="cons"):
         return False
     if "::tests::" in g.id:
         return False
-    if base_name(g.id) in anchor_words():
+    if base_name(g.id) in (broad_words() if mode.endswith("-broad") else anchor_words()):
         return False
     return True
 
